@@ -70,6 +70,10 @@ func linOf(v ssa.Value) lin {
 		}
 	case *ssa.Convert:
 		// int <-> int conversions of the same width are not tracked; keep the value itself
+	case *ssa.UnOp:
+		if c := canonLoad(v); c != v {
+			return linOf(c)
+		}
 	}
 	return lin{base: v}
 }
@@ -77,6 +81,9 @@ func linOf(v ssa.Value) lin {
 // lenOf gives the linear form of len(x).
 func lenOf(x ssa.Value) lin {
 	x = strip(x)
+	if c := canonLoad(x); c != x {
+		return lenOf(c)
+	}
 	switch s := x.(type) {
 	case *ssa.MakeSlice:
 		return linOf(s.Len)
@@ -264,6 +271,52 @@ func (pv *prover) le(a, b lin, facts []Atom, depth int) bool {
 		if bo, ok := b.base.(*ssa.BinOp); ok && bo.Op == token.ADD && a.base == nil {
 			zero := lin{off: 0}
 			if a.off <= b.off && pv.le(zero, linOf(bo.X), facts, depth+1) && pv.le(zero, linOf(bo.Y), facts, depth+1) {
+				return true
+			}
+		}
+	}
+	// len(append(p, ...)) >= len(p)
+	if b.isLen {
+		if call, ok := b.base.(*ssa.Call); ok {
+			if bi, ok := call.Common().Value.(*ssa.Builtin); ok && bi.Name() == "append" && len(call.Common().Args) >= 1 {
+				lp := lenOf(call.Common().Args[0])
+				lp.off += b.off
+				if depth < 6 && pv.le(a, lp, facts, depth+1) {
+					return true
+				}
+			}
+		}
+	}
+	// x/c <= x for 0 <= x and a constant c >= 1
+	if !a.isLen && depth < 6 {
+		if bo, ok := a.base.(*ssa.BinOp); ok && bo.Op == token.QUO {
+			if c, isC := constInt(bo.Y); isC && c >= 1 {
+				dv := linOf(bo.X)
+				if pv.le(lin{}, dv, facts, depth+1) {
+					dv.off += a.off
+					if pv.le(dv, b, facts, depth+1) {
+						return true
+					}
+				}
+			}
+		}
+		// (x - y) + oa <= b  if  0 <= y and x + oa <= b
+		if bo, ok := a.base.(*ssa.BinOp); ok && bo.Op == token.SUB {
+			if pv.le(lin{}, linOf(bo.Y), facts, depth+1) {
+				lx := linOf(bo.X)
+				lx.off += a.off
+				if pv.le(lx, b, facts, depth+1) {
+					return true
+				}
+			}
+		}
+	}
+	// c <= (x - y) + ob  if  y + (c - ob) <= x
+	if !b.isLen && a.base == nil && depth < 6 {
+		if bo, ok := b.base.(*ssa.BinOp); ok && bo.Op == token.SUB {
+			ly := linOf(bo.Y)
+			ly.off += a.off - b.off
+			if pv.le(ly, linOf(bo.X), facts, depth+1) {
 				return true
 			}
 		}
